@@ -19,7 +19,7 @@ LEVEL = "fault_enumeration"
 NEEDS_DEPS = ["numpy"]
 RULE = ("a case is one valid joblib file (object from the C03 generator, sometimes with numpy arrays, any compressor, "
         "protocol 2-5) x its damaged variants: every strict prefix for files <= 4 KiB (exhaustive), boundary-biased "
-        "prefixes otherwise (0, 1, header, +-1 around 8192*k, last 9 bytes), and suffixes {1 byte, 4 junk bytes, 8 KiB "
+        "prefixes otherwise (0, 1, header, +-1 around 8192*k, last 9 bytes), zlib / gzip files built so that their length modulo 8192 is 0, 1..9, 12, 8190, 8191, loads through a raw stream delivering at most 1 / 13 / 4096 / 8191 bytes per read, and suffixes {1 byte, 4 junk bytes, 8 KiB "
         "junk, a second copy of the same stream, a different valid stream}; plus Memory entries whose output.pkl is "
         "damaged the same ways; distinct_nontrivial counts distinct (file digest, damage) loads")
 ASSUMPTIONS = [
